@@ -726,9 +726,12 @@ def finish(tier, rep: Report):
         fails.append("fewer than 3 distinct corner orders observed")
     if len(rep.outcomes.get("cycle_all", ())) < 2:
         fails.append("extract_border_cycle_all: a single distinct outcome")
-    want_border = {"quick": 1500, "thorough": 30000}[tier]
+    want_border = {"quick": 7000, "thorough": 50000}[tier]      # measured: 7134 / 50286 (mesh, sort) pairs
     if rep.counters.get("border_meshes", 0) < want_border:
         fails.append(f"border family smaller than pinned floor: {rep.counters.get('border_meshes', 0)} < {want_border}")
-    if rep.counters.get("feature_meshes:hinge", 0) < 2 * 170:
+    if rep.counters.get("feature_meshes:hinge", 0) < 700:            # measured 724 = (181 x None-only + 181 x previous states) x 2 sorts
         fails.append("hinge family smaller than expected")
+    for fl in ("feat:band:near37", "feat:band:near60"):
+        if fl not in rep.flags:
+            fails.append("coverage flag missing: " + fl)
     return fails
